@@ -48,7 +48,24 @@ class Tr:
             return flit(float(n.value))
         if isinstance(n, ast.Call) and ast.unparse(n.func) == 'np.floor' and len(n.args) == 1 and not n.keywords:
             return f'(ffloor {self.ex(n.args[0])})'
+        if isinstance(n, ast.Call) and ast.unparse(n.func) == 'np.where' and len(n.args) == 3 and not n.keywords:
+            # elementwise selection on doubles: if <comparison> then a else b
+            return f'(if {self.cmp(n.args[0])} then {self.ex(n.args[1])} else {self.ex(n.args[2])})'
         raise Unsupported('expression ' + ast.dump(n))
+
+    def cmp(self, n):
+        if isinstance(n, ast.Compare) and len(n.ops) == 1:
+            a, b = self.ex(n.left), self.ex(n.comparators[0])
+            t = type(n.ops[0])
+            if t is ast.Gt:
+                return f'({b} <? {a})'
+            if t is ast.Lt:
+                return f'({a} <? {b})'
+            if t is ast.GtE:
+                return f'({b} <=? {a})'
+            if t is ast.LtE:
+                return f'({a} <=? {b})'
+        raise Unsupported('comparison ' + ast.dump(n))
 
     def assigned(self, body):
         out = []
